@@ -24,7 +24,7 @@ OWN = {
     "CallerFramesUntouched": {"C02"}, "MakeLeavesOthersAlone": {"C02"}, "NewLeavesOthersAlone": {"C02"}, "LoadLeavesOthersAlone": {"C02"},
     "SavePure": {"C02"}, "StartLeavesOthersAlone": {"C02"}, "PredSameAcrossHistory": {"C02"}, "DocSameAcrossHistory": {"C02"},
     "FitJsonSameAcrossHistory": {"C02", "C03"},
-    "FitJsonSameAcrossFits": {"C03"}, "PredSameAcrossFits": {"C03"}, "DocSameAcrossFits": {"C03"},
+    "FitJsonSameAcrossFits": {"C03"}, "PredSameAcrossFits": {"C03", "C02"},        # also C02's: a model object that predicts otherwise than a fresh object fitted on the same data carries state from its earlier use "DocSameAcrossFits": {"C03"},
     "PredSameAcrossObservedVariants": {"C05"}, "FitJsonSameAcrossObservedVariants": {"C05"}, "DocSameAcrossObservedVariants": {"C05"},
     "OneRowPerInputTimestamp": {"C06"},
     "DataObjectConstructed": {"C10", "C04"},
@@ -254,6 +254,37 @@ def pick_cover(hists, n, r):
     return chosen
 
 
+def reference_histories(chosen):
+    """For every chosen history in which a model object is fitted AGAIN on other data and then used, the same use by a FRESH object:
+    new; fit (the last baseline); the same predicts / sweep.  The interpretation map then holds a second sighting of every
+    prediction made after the refit, so that `what a refitted object predicts is what a fresh object predicts` is decided
+    within the run (the P-layer's Core(m, d) does not depend on what the object was fitted on before)."""
+    out, seen = [], set()
+    for h in chosen:
+        news, fitted, refitted, uses = {}, {}, {}, {}
+        for a in h:
+            if a["op"] == "new":
+                news[a["s"]] = a
+            elif a["op"] == "fit":
+                if a["s"] in fitted and fitted[a["s"]]["d"] != a["d"]:
+                    refitted[a["s"]] = True
+                    uses[a["s"]] = []
+                fitted[a["s"]] = a
+            elif a["op"] in ("predict", "sweep") and refitted.get(a["s"]):
+                uses[a["s"]].append(a)
+            elif a["op"] in ("load", "restart"):
+                refitted.pop(a.get("s"), None) if a["op"] == "load" else refitted.clear()
+        for sl, us in uses.items():
+            if not us or sl not in news:
+                continue
+            ref = [dict(news[sl]), dict(fitted[sl])] + [dict(u) for u in us]
+            key = json.dumps(ref, sort_keys=True)
+            if key not in seen:
+                seen.add(key)
+                out.append(ref)
+    return out
+
+
 def expand(hist, scen, fam, aggs, salt, remote_restart, prof=""):
     """Abstract history -> executable script: lazy `make`, sweeps unfolded in a seeded order, restarts as fresh worlds."""
     s = SCENARIOS[scen]
@@ -397,6 +428,7 @@ def run_property(prop, tier, scen_list, per_scen, assumptions, rule, extra_jobs=
             r = common.rng("pick", prop, scen, fam, prof)
             n = per_scen if per_scen is not None else len(hists)
             chosen = pick_cover(hists, n, r)
+            chosen = chosen + reference_histories(chosen)
             for k, h in enumerate(chosen):
                 tid += 1
                 remote = (tier == "thorough") or (k % 4 == 0)
